@@ -60,6 +60,15 @@ def gen_start(rnd):
     else:
         lon = rnd.uniform(-179.99, 179.99)
 
+    if rnd.random() < 0.35:
+        k = rnd.choice([1, 2, 3, 'min'])
+        if k == 'min':
+            lat, lon = round(lat * 60) / 60.0, round(lon * 60) / 60.0
+        else:
+            lat, lon = round(lat, k), round(lon, k)
+        if prj == 'isg':
+            lon = min(max(lon, 138.01), 155.99)
+
     def hs():
         s = rnd.choice(HSTATES)
         return None if s == 'absent' else (0.0 if s == 'zero' else round(rnd.uniform(-100, 3000), 3))
